@@ -533,7 +533,12 @@ def check_small_semantics(ctx: Ctx, oid: str, encoder: bool = True, dfs: bool = 
             capped = isinstance(hi, ast.BinOp) and isinstance(hi.op, ast.Add) and ast.unparse(hi.right) == "1" and isinstance(hi.left, ast.Call) and ast.unparse(hi.left.func) == "min" and "n" in [ast.unparse(a) for a in hi.left.args]
             ok = ast.unparse(hi) == "n + 1" or capped
             if capped:
-                ctx.note("_encode_capacity_constraint caps the subset size with min(n, ..): whether the cap keeps every minimal overloading subset is not decided here")
+                # a cap "number of tasks that fit, plus one" is valid only if the tasks are counted lightest first
+                srt = [c_ for c_ in own_nodes(cc.node) if isinstance(c_, ast.Call) and ast.unparse(c_.func) == "sorted" and c_.args and "demands" in names_in(c_.args[0])]
+                desc = [c_ for c_ in srt if any(k_.arg == "reverse" and ast.unparse(k_.value) == "True" for k_ in c_.keywords) or any(k_.arg == "key" and "-" in ast.unparse(k_.value) for k_ in c_.keywords)]
+                ctx.ob(oid, "R12 NO-CARDINALITY-CUTOFF", cc, "a cap on the size of the overloading subsets counts the tasks that fit from the lightest upwards", not desc, f"`{ast.unparse(desc[0]) if desc else ''}`: counting how many of the heaviest tasks fit undercounts how many light ones do, so minimal overloading subsets of many light tasks get no clause and the CNF accepts overloaded schedules", node=desc[0] if desc else sizes[0])
+                if not desc:
+                    ctx.note("_encode_capacity_constraint caps the subset size with min(n, ..): whether the cap keeps every minimal overloading subset is not decided here")
         ctx.ob(oid, "R12 NO-CARDINALITY-CUTOFF", cc, "overloading subsets are enumerated from size 1 up to all n tasks", ok, f"`{ast.unparse(sizes[0].iter) if sizes else '?'}`: the only minimal overloading subset may be the largest one", node=sizes[0] if sizes else cc.node)
     if dfs:
         pc = ctx.func("cp", "Model._propagate_constraint")
